@@ -26,6 +26,7 @@ type c13Desc struct {
 	Host      string   `json:"host_override"`
 	Scheme    string   `json:"scheme"`
 	Headers   bool     `json:"custom_headers"`
+	Conflict  bool     `json:"caller_headers_named_like_handshake_headers,omitempty"`
 }
 
 var c13Status = []int{101, 200, 201, 204, 400, 403, 404, 426, 500, 100, 102}
@@ -116,6 +117,7 @@ func c13Gen(tier string, seed int64) []fw.Case {
 					d.Host = []string{"", "override.test:99"}[i%2]
 					d.Scheme = []string{"ws", "wss", "http", "https"}[i%4]
 					d.Headers = i%3 != 0
+					d.Conflict = d.Headers && i%5 == 0
 					i++
 					cases = append(cases, fw.Case{Name: fmt.Sprintf("mode=%d/req=%v/status=%d/conn=%s", mode, req, st, cn.Name), Desc: d, Run: func(r *fw.R) { c13Run(r, d) }})
 				}
@@ -234,6 +236,15 @@ func c13Run(r *fw.R, d c13Desc) {
 					var hdr http.Header
 					if d.Headers {
 						hdr = http.Header{"X-Custom": {"a", "b"}, "Cookie": {"k=v"}, "Origin": {"https://caller.test"}}
+					}
+					if d.Conflict {
+						// a caller (a proxy, say) hands over headers named like the handshake's own: whatever happens to
+						// them, the request that goes out is still a well-formed upgrade request with a fresh key
+						for k, v := range map[string]string{"Connection": "keep-alive", "Upgrade": "h2c", "Sec-WebSocket-Version": "8", "Sec-WebSocket-Key": "c3RhbGUgc3RhbGUgc3RhbGUhIQ==",
+							"Sec-WebSocket-Protocol": "stale-protocol", "Sec-WebSocket-Extensions": "x-stale-extension"} {
+							hdr.Set(k, v)
+						}
+						r.Count("dials_with_caller_headers_named_like_handshake_headers", 1)
 					}
 					hdrCopy := hdr.Clone()
 					opts := &websocket.DialOptions{
@@ -434,6 +445,9 @@ func c13CheckRequest(r *fw.R, d c13Desc, req *http.Request, hdr, hdrCopy http.He
 		bad("host", fmt.Sprintf("req.Host=%q want %q", req.Host, wantHost))
 	}
 	for k, v := range hdrCopy {
+		if d.Conflict && (k == "Connection" || k == "Upgrade" || strings.HasPrefix(k, "Sec-Websocket-")) {
+			continue // (the handshake's own headers win over a caller's of the same name: judged above)
+		}
 		if !reflect.DeepEqual(req.Header.Values(k), v) {
 			bad("caller-header-lost", fmt.Sprintf("caller header %s=%q arrived as %q", k, v, req.Header.Values(k)))
 		}
